@@ -227,10 +227,10 @@ PROPS = {
                 "~285 sites) a delay longer than the fallback detector's 3 x 10 ms window - 60 ms on the first 3 passes, 60 ms on the last pass (sites "
                 "passed more than 3 times) and 40 ms on every pass (4-12 passes); pairs whose motif never passes the site are skipped - on each of 15 canonical "
                 "workflows whose meaning fixes one result (single, chain, wait_for, enabled from upstream, deploy expression, diamond, failing "
-                "prerequisite, crash, deploy failure, disabled + or-disabled, one-of consumer, wait-optional with failing source, foreach, nested "
+                "prerequisite, crash, deploy failure, disabled + or-disabled, one-of consumer, wait-optional with failing source, foreach, foreach next to five plugin steps, nested "
                 "foreach); both tiers visit all sites (exhaustive over sites x motifs x delay variants); the tiers differ in the number of random plans. (2) rapid: random deterministic "
                 "single-output programs under random plans of 1-6 sites with 1-40 ms delays. oracle: the result equals the reference (in "
-                "particular never 'no steps running' when the result is producible). non-trivial = the planned site was hit in the run; distinct "
+                "particular never 'no steps running' when the result is producible); a run that blocks for ever under a plan is a violation. non-trivial = the planned site was hit in the run; distinct "
                 "= FNV-64 of (program, plan)",
         "quick": {"cases": 240, "shards": 16, "shrinktime": "30s", "timeout_s": 900},
         "thorough": {"cases": 3200, "shards": 16, "shrinktime": "120s", "timeout_s": 3300},
